@@ -207,7 +207,8 @@ def _toposort(wd, tier, seed, verdict, replay_cases, ev):
                 counts.append([json.loads(l) for l in o.splitlines() if '"stats"' in l][-1]["stats"]["class_counts"])
             extra = {c: v for c, v in counts[1].items() if v != counts[0].get(c, 0)}
             ev["binding"]["toposort"] = bool(extra)
-            if not extra:
+            # if the real code already disagrees beyond the known finding, an unreported corruption is not a harness fault
+            if not extra and not verdict.violations:
                 raise vf.MachineryError("binding self-test failed: corrupted toposort expectation (case %d) not reported" % k)
 
 
@@ -282,6 +283,7 @@ def _trie(wd, tier, seed, verdict, replay_hists, ev):
         if stats.get("aborted"):
             return
         ev["evaluations"] += stats["checks"]
+        ev["trie_mismatches"] += stats["mismatches"]
         for k, v in stats["final_impl"].items():
             ev["trie_final_index_width"][k] = ev["trie_final_index_width"].get(k, 0) + v
         for k, v in stats["codings"].items():
@@ -294,15 +296,24 @@ def _trie(wd, tier, seed, verdict, replay_hists, ev):
                     if idx >= 200:
                         break
                     hf.write(line)
-            k = (seed * 7919) % min(200, cnt[0])
-            got = []
-            for extra_args in ([], ["-corrupt", str(k)]):
+            k0 = (seed * 7919) % min(200, cnt[0])
+
+            def _mism(extra_args):
                 rc, o, err = vf.run_driver(binary, ["-seed", str(seed)] + extra_args, stdin_path=head, timeout=3000)
-                got.append([json.loads(l) for l in o.splitlines() if '"stats"' in l][-1]["stats"]["mismatches"])
-            ev["binding"]["trie"] = got[1] > got[0]
-            if got[1] <= got[0]:
-                raise vf.MachineryError("binding self-test failed: corrupted trie expectation (case %d) not reported" % k)
-    if replay_hists is None and not ev["trie_final_index_width"].get("uint16"):
+                return [json.loads(l) for l in o.splitlines() if '"stats"' in l][-1]["stats"]["mismatches"]
+            base_m = _mism([])
+            ok = False
+            # a case that already disagrees cannot show one more disagreement: try the next ones
+            for k in range(k0, k0 + 10):
+                if _mism(["-corrupt", str(k % min(200, cnt[0]))]) > base_m:
+                    ok = True
+                    break
+            ev["binding"]["trie"] = ok
+            if not ok and not verdict.violations:
+                raise vf.MachineryError("binding self-test failed: corrupted trie expectation (case %d..) not reported" % k0)
+    # vacuity guard, only meaningful when the trie agreed everywhere: a replay stops at a case's first disagreement
+    # (e.g. a panic in Insert), so a broken trie may never get far enough to grow -- that is a verdict, not exit 2
+    if replay_hists is None and not ev["trie_mismatches"] and not ev["trie_final_index_width"].get("uint16"):
         raise vf.MachineryError("no trie case crossed the 255-node threshold (vacuous growth coverage)")
 
 
@@ -313,7 +324,7 @@ def run(pid, tier, replay=None):
     verdict = vf.Verdict(pid)
     ev = {"states": 0, "transitions": 0, "cases": 0, "nontrivial": 0, "evaluations": 0, "samples": [], "bounds": [],
           "toposort_cyclic_cases": 0, "toposort_traces_validated_by_tlc": 0, "toposort_traces_rejected": 0,
-          "class_counts": {}, "trie_final_index_width": {}, "trie_codings": {}, "binding": {}}
+          "class_counts": {}, "trie_mismatches": 0, "trie_final_index_width": {}, "trie_codings": {}, "binding": {}}
     ts_replay = trie_replay = None
     if replay:
         rep = json.load(open(replay))
